@@ -3,6 +3,64 @@
   `assemble` in closed form.
 -/
 import J2M.Cli
+import Batteries.Data.String.Lemmas   -- `get_of_valid`/`next_of_valid`/`extract_of_valid`, for `String.splitOn` only
+
+/-! ## The legacy `String.splitOn` with a one-character separator splits the character list
+    (core and Batteries have no lemma about `String.splitOn`; Batteries marks it TODO) -/
+namespace String
+set_option linter.deprecated false in
+theorem splitOnAux_char (c : Char) (l m r : List Char) (acc : List String) :
+    splitOnAux (ofList (l ++ m ++ r)) (singleton c) ⟨utf8Len l⟩ ⟨utf8Len l + utf8Len m⟩ 0 acc =
+      acc.reverse ++ (List.splitOnPPrepend (· == c) r m.reverse).map ofList := by
+  unfold splitOnAux
+  simp only [List.append_assoc, atEnd_iff, rawEndPos_ofList, utf8Len_append, Pos.Raw.mk_le_mk,
+    Nat.add_le_add_iff_left, (by omega : utf8Len m + utf8Len r ≤ utf8Len m ↔ utf8Len r = 0),
+    utf8Len_eq_zero, List.reverse_cons]
+  split
+  · subst r
+    simpa using extract_of_valid l m []
+  · obtain ⟨x, r, rfl⟩ := r.exists_cons_of_ne_nil ‹_›
+    have hg : Pos.Raw.get (ofList (l ++ (m ++ x :: r))) ⟨utf8Len l + utf8Len m⟩ = x := by
+      simpa using get_of_valid (l ++ m) (x :: r)
+    have hn : Pos.Raw.next (ofList (l ++ (m ++ x :: r))) ⟨utf8Len l + utf8Len m⟩
+        = ⟨utf8Len l + utf8Len m + x.utf8Size⟩ := by
+      simpa using next_of_valid (l ++ m) x r
+    have hgc : Pos.Raw.get (singleton c) 0 = c := by
+      rw [singleton_eq_ofList]; simpa using get_of_valid [] [c]
+    have hnc : Pos.Raw.next (singleton c) 0 = ⟨c.utf8Size⟩ := by
+      rw [singleton_eq_ofList]; simpa using next_of_valid [] c []
+    have hec : (singleton c).rawEndPos = ⟨c.utf8Size⟩ := by
+      rw [singleton_eq_ofList, rawEndPos_ofList]; simp [utf8Len]
+    have hu0 : (⟨utf8Len l + utf8Len m⟩ : Pos.Raw).unoffsetBy 0 = ⟨utf8Len l + utf8Len m⟩ := by
+      simp [Pos.Raw.unoffsetBy]
+    rw [hg, hn, hgc, hnc, hec, hu0, hn]
+    by_cases hx : x = c
+    · subst hx
+      have hu : (⟨utf8Len l + utf8Len m + x.utf8Size⟩ : Pos.Raw).unoffsetBy ⟨x.utf8Size⟩
+          = ⟨utf8Len l + utf8Len m⟩ := by
+        simp [Pos.Raw.unoffsetBy]
+      have he : Pos.Raw.extract (ofList (l ++ (m ++ x :: r))) ⟨utf8Len l⟩ ⟨utf8Len l + utf8Len m⟩ = ofList m := by
+        simpa using extract_of_valid l m (x :: r)
+      simp only [beq_self_eq_true, if_true, Pos.Raw.le_refl, hu, he]
+      have := splitOnAux_char x (l ++ m ++ [x]) [] r (ofList m :: acc)
+      simpa [Nat.add_assoc, List.splitOnPPrepend_cons_eq_if] using this
+    · have hb : (x == c) = false := by simpa using hx
+      simp only [hb, Bool.false_eq_true, if_false]
+      have := splitOnAux_char c l (m ++ [x]) r acc
+      simpa [Nat.add_assoc, List.splitOnPPrepend_cons_eq_if, hb] using this
+termination_by r.length
+
+theorem splitOn_char (s : String) (c : Char) :
+    s.splitOn (singleton c) = (s.toList.splitOn c).map ofList := by
+  have h : ((singleton c) == "") = false := by
+    rw [singleton_eq_ofList]
+    simp [← String.toList_inj]
+  unfold splitOn
+  simp only [h, Bool.false_eq_true, if_false]
+  have := splitOnAux_char c [] [] s.toList []
+  simpa [List.splitOn_eq_splitOnP] using this
+end String
+
 namespace J2M.Cli
 
 /-! ## `writeFile` is a map update (observed through `find?`) -/
@@ -493,8 +551,8 @@ theorem getD_foldl_extend (js : List Job) (acc : List (String × List Json)) (n 
   | cons j js ih =>
     rw [List.foldl_cons, ih, getD_extend]
     by_cases h : j.1 = n
-    · simp [h, List.filter_cons]
-    · simp [h, List.filter_cons]
+    · simp [h]
+    · simp [h]
 
 theorem keys_foldl_extend (js : List Job) (acc : List (String × List Json)) :
     keys (js.foldl (fun acc j => extend acc j.1 j.val) acc) = (js.map (·.1)).foldl insertEnd (keys acc) := by
@@ -533,7 +591,9 @@ theorem jobs_errors (args : List Arg) : (jobs args).filterMap Job.err = errors a
   induction args with
   | nil => rfl
   | cons a as ih =>
-    rw [jobs_cons, List.filterMap_append, ih, errors, List.flatMap_cons, List.filterMap_map]
+    have he : errors (a :: as) = a.docs.filterMap (errOf a.lookup) ++ errors as := by
+      simp [errors]
+    rw [jobs_cons, List.filterMap_append, ih, he, List.filterMap_map]
     rfl
 
 theorem jobs_samples (args : List Arg) (n : String) :
@@ -541,10 +601,14 @@ theorem jobs_samples (args : List Arg) (n : String) :
   induction args with
   | nil => rfl
   | cons a as ih =>
-    rw [jobs_cons, List.filter_append, List.flatMap_append, ih, samples, List.filter_cons]
+    have hs : samples (a :: as) n
+        = (if (a.name == n) = true then a.docs.flatMap (itemsOf a.lookup) else []) ++ samples as n := by
+      simp only [samples, List.filter_cons]
+      split <;> simp
+    rw [jobs_cons, List.filter_append, List.flatMap_append, ih, hs]
     by_cases h : a.name = n
     · have : (a.name == n) = true := by simpa using h
-      rw [this, if_pos rfl, List.flatMap_cons, samples]
+      rw [this, if_pos rfl]
       congr 1
       rw [List.filter_map, List.flatMap_map]
       have : (List.filter ((fun x : Job => x.1 == n) ∘ fun d => (a.name, iterJsonFile d a.lookup)) a.docs) = a.docs := by
@@ -553,7 +617,7 @@ theorem jobs_samples (args : List Arg) (n : String) :
       rw [this]
       rfl
     · have hb : (a.name == n) = false := by simpa using h
-      rw [hb, samples]
+      rw [hb]
       simp only [Bool.false_eq_true, if_false]
       have : List.filter (fun x : Job => x.1 == n) (a.docs.map (fun d => (a.name, iterJsonFile d a.lookup))) = [] := by
         apply List.filter_eq_nil_iff.2
@@ -589,7 +653,8 @@ theorem jobs_keys (args : List Arg) (ks : List String) :
 theorem assembled_keys (args : List Arg) :
     keys ((jobs args).foldl (fun acc j => extend acc j.1 j.val) []) = names args := by
   rw [keys_foldl_extend, jobs_keys, foldl_insertEnd]
-  simp [keys, names]
+  simp only [keys, names, List.map_nil, List.nil_append, List.contains_nil, Bool.not_false]
+  rw [List.filter_eq_self.2 (fun _ _ => rfl)]
 
 theorem assembled_nodup (args : List Arg) : (names args).Nodup := by
   rw [← assembled_keys, keys_foldl_extend]
@@ -613,5 +678,267 @@ theorem assemble_eq (args : List Arg) :
       | none => .ok (assembled args)
       | some e => .error e := by
   rw [assemble_eq_jobs, foldlM_stepJob, jobs_errors, foldl_jobs_eq_assembled]
+
+
+/-! ## Splitting / regrouping the input leaves `assemble` unchanged -/
+
+theorem foldlM_congr_mid {α β ε : Type} (f : β → α → Except ε β) (A M M' B : List α)
+    (h : ∀ acc, M.foldlM f acc = M'.foldlM f acc) (acc : β) :
+    (A ++ M ++ B).foldlM f acc = (A ++ M' ++ B).foldlM f acc := by
+  simp only [List.foldlM_append]
+  cases A.foldlM f acc with
+  | error e => rfl
+  | ok acc' => simp only [bind, Except.bind]; rw [h]
+
+theorem jobs_append (xs ys : List Arg) : jobs (xs ++ ys) = jobs xs ++ jobs ys := by
+  simp [jobs]
+
+theorem jobs_mid (pre post : List Arg) (a : Arg) :
+    jobs (pre ++ a :: post)
+      = jobs pre ++ a.docs.map (fun d => (a.name, iterJsonFile d a.lookup)) ++ jobs post := by
+  rw [jobs_append, jobs_cons, List.append_assoc]
+
+/-- one list document split into two adjacent list documents (any lookup) -/
+theorem stepJob_split_arr (n l : String) (xs ys : List Json) (acc : List (String × List Json)) :
+    [((n, iterJsonFile (.arr (xs ++ ys)) l) : Job)].foldlM stepJob acc
+      = [((n, iterJsonFile (.arr xs) l) : Job), (n, iterJsonFile (.arr ys) l)].foldlM stepJob acc := by
+  simp only [iterJsonFile_arr]
+  cases isRootLookup l with
+  | true =>
+    simp [stepJob, bind, Except.bind, pure, Except.pure, extend_extend]
+  | false =>
+    simp [stepJob, bind, Except.bind]
+
+theorem assemble_split_doc (pre post : List Arg) (n l : String) (ds₁ ds₂ : List Json) (xs ys : List Json) :
+    assemble (pre ++ ⟨n, l, ds₁ ++ .arr (xs ++ ys) :: ds₂⟩ :: post)
+      = assemble (pre ++ ⟨n, l, ds₁ ++ .arr xs :: .arr ys :: ds₂⟩ :: post) := by
+  rw [assemble_eq_jobs, assemble_eq_jobs, jobs_mid, jobs_mid]
+  simp only [List.map_append, List.map_cons]
+  have e1 : ∀ (J₁ J₂ P Q : List Job) (j : Job), P ++ (J₁ ++ j :: J₂) ++ Q = (P ++ J₁) ++ [j] ++ (J₂ ++ Q) := by
+    intros; simp
+  have e2 : ∀ (J₁ J₂ P Q : List Job) (j j' : Job),
+      P ++ (J₁ ++ j :: j' :: J₂) ++ Q = (P ++ J₁) ++ [j, j'] ++ (J₂ ++ Q) := by
+    intros; simp
+  rw [e1, e2]
+  exact foldlM_congr_mid _ _ _ _ _ (stepJob_split_arr n l xs ys) _
+
+/-- one argument with documents `d₁ ++ d₂` split into two adjacent arguments (same name and lookup) -/
+theorem assemble_split_arg (pre post : List Arg) (n l : String) (d₁ d₂ : List Json) :
+    assemble (pre ++ ⟨n, l, d₁ ++ d₂⟩ :: post) = assemble (pre ++ ⟨n, l, d₁⟩ :: ⟨n, l, d₂⟩ :: post) := by
+  rw [assemble_eq_jobs, assemble_eq_jobs]
+  congr 1
+  simp [jobs]
+
+/-- top-level lists under the root lookup vs the same lists wrapped as `{"k": list}` under lookup `k` -/
+theorem assemble_wrap (pre post : List Arg) (n k r : String) (hk : PlainKey k) (hr : isRootLookup r = true)
+    (xss : List (List Json)) :
+    assemble (pre ++ ⟨n, r, xss.map .arr⟩ :: post)
+      = assemble (pre ++ ⟨n, k, xss.map (fun xs => .obj [(k, .arr xs)])⟩ :: post) := by
+  rw [assemble_eq_jobs, assemble_eq_jobs, jobs_mid, jobs_mid]
+  congr 3
+  simp only [List.map_map]
+  apply List.map_congr_left
+  intro xs _
+  simp [iterJsonFile_arr, hr, iterJsonFile_wrapped k hk]
+
+/-! ## `parseMerge` -/
+
+/-- `m.split("_") if "_" in m else m` (a bare string is a one-element list here) -/
+def mergeParts (m : String) : List String := if m.contains '_' then splitUnderscore m else [m]
+
+theorem mergeParts_of_no_underscore (m : String) (h : '_' ∉ m.toList) : mergeParts m = [m] := by
+  simp [mergeParts, String.contains_char_eq, h]
+
+theorem mergeParts_of_underscore (m : String) (h : '_' ∈ m.toList) : mergeParts m = splitUnderscore m := by
+  simp [mergeParts, String.contains_char_eq, h]
+
+/-- `mergeParts` is the list of underscore-separated segments, for every string -/
+theorem mergeParts_eq (m : String) : mergeParts m = (m.toList.splitOn '_').map String.ofList := by
+  by_cases h : '_' ∈ m.toList
+  · rw [mergeParts_of_underscore m h, splitUnderscore, show "_" = String.singleton '_' from rfl,
+      String.splitOn_char]
+  · rw [mergeParts_of_no_underscore m h, List.splitOn_eq_singleton h]
+    simp
+
+/-- joining underscore-free parts with `_` and splitting again gives the parts back -/
+theorem mergeParts_intercalate (parts : List String) (hne : parts ≠ [])
+    (h : ∀ p ∈ parts, '_' ∉ p.toList) : mergeParts ("_".intercalate parts) = parts := by
+  rw [mergeParts_eq, String.toList_intercalate, show "_".toList = ['_'] from rfl,
+    List.splitOn_intercalate '_' (by simpa using h) (by simpa using hne), List.map_map]
+  simp [Function.comp_def]
+
+theorem mergeParts_name_arg (name a : String) (hn : '_' ∉ name.toList) (ha : '_' ∉ a.toList) :
+    mergeParts (name ++ "_" ++ a) = [name, a] := by
+  have := mergeParts_intercalate [name, a] (by simp) (by simp [hn, ha])
+  rwa [show "_".intercalate [name, a] = name ++ "_" ++ a by
+    rw [← String.toList_inj, String.toList_intercalate]; simp [List.intercalate_cons_cons]] at this
+
+/-- `parseMerge` is a function of `mergeParts m` -/
+def parseParts (po : PercentOracle) (io : IntOracle) (defaultPercent : Nat × Nat) (defaultNumber : Nat) :
+    List String → Except PyErr Cmp
+  | ["percent"] => pure (.percent defaultPercent.1 defaultPercent.2)
+  | ["percent", a] => match po a with
+    | none => .error (.oracleMiss ("percent " ++ a))
+    | some none => .error .valueError
+    | some (some (n, d)) => pure (.percent n d)
+  | ["number"] => pure (.number defaultNumber)
+  | ["number", a] => match io a with
+    | none => .error (.oracleMiss ("int " ++ a))
+    | some none => .error .valueError
+    | some (some i) => pure (.number i.toNat)
+  | ["exact"] => pure .exact
+  | name :: _ => if name == "percent" || name == "number" || name == "exact" then .error .typeError
+                 else .error .valueError
+  | [] => .error .valueError
+
+theorem parseMerge_eq (po : PercentOracle) (io : IntOracle) (dp : Nat × Nat) (dn : Nat) (m : String) :
+    parseMerge po io dp dn m = parseParts po io dp dn (mergeParts m) := rfl
+
+theorem parseParts_unknown (po : PercentOracle) (io : IntOracle) (dp : Nat × Nat) (dn : Nat)
+    (name : String) (rest : List String)
+    (h1 : name ≠ "percent") (h2 : name ≠ "number") (h3 : name ≠ "exact") :
+    parseParts po io dp dn (name :: rest) = .error .valueError := by
+  unfold parseParts
+  split <;> simp_all
+
+theorem parseParts_too_many (po : PercentOracle) (io : IntOracle) (dp : Nat × Nat) (dn : Nat)
+    (name a b : String) (rest : List String)
+    (h : name = "percent" ∨ name = "number" ∨ name = "exact") :
+    parseParts po io dp dn (name :: a :: b :: rest) = .error .typeError := by
+  unfold parseParts
+  split <;> simp_all
+  rcases h with h | h | h <;> simp [h]
+
+theorem parseParts_exact_arg (po : PercentOracle) (io : IntOracle) (dp : Nat × Nat) (dn : Nat) (a : String) :
+    parseParts po io dp dn ["exact", a] = .error .typeError := by
+  simp [parseParts]
+
+
+/-! ## Reading the closed form -/
+
+theorem subscript_error_iff (d : Json) (k : String) (e : PyErr) :
+    subscript d k = .error e ↔
+      (∃ kvs, d = .obj kvs ∧ kvs.find? (·.1 == k) = none ∧ e = .keyError) ∨
+      ((∀ kvs, d ≠ .obj kvs) ∧ e = .typeError) := by
+  cases d with
+  | obj kvs =>
+    simp only [subscript]
+    cases h : kvs.find? (·.1 == k) with
+    | none => simp [h, eq_comm]
+    | some kv =>
+      constructor
+      · intro h'; cases h'
+      · rintro (⟨kvs', hk, hf, _⟩ | ⟨hno, _⟩)
+        · cases hk; rw [h] at hf; cases hf
+        · exact absurd rfl (hno kvs)
+  | _ => simp [subscript, eq_comm]
+
+theorem subscript_ok_iff (d : Json) (k : String) (v : Json) :
+    subscript d k = .ok v ↔ ∃ kvs k', d = .obj kvs ∧ kvs.find? (·.1 == k) = some (k', v) := by
+  cases d with
+  | obj kvs =>
+    simp only [subscript]
+    cases h : kvs.find? (·.1 == k) with
+    | none => simp [h]
+    | some kv => obtain ⟨k', v'⟩ := kv; simp [h, pure, Except.pure]
+  | _ => simp [subscript]
+
+/-- the first `some` of a `filterMap` comes from the first element mapped to `some` -/
+theorem head?_filterMap_eq_some {α β : Type} (f : α → Option β) (l : List α) (b : β) :
+    (l.filterMap f).head? = some b ↔
+      ∃ pre x post, l = pre ++ x :: post ∧ (∀ y ∈ pre, f y = none) ∧ f x = some b := by
+  induction l with
+  | nil => simp
+  | cons a l ih =>
+    cases ha : f a with
+    | none =>
+      rw [List.filterMap_cons_none ha, ih]
+      constructor
+      · rintro ⟨pre, x, post, rfl, hpre, hx⟩
+        refine ⟨a :: pre, x, post, rfl, ?_, hx⟩
+        intro y hy
+        simp only [List.mem_cons] at hy
+        rcases hy with rfl | hy
+        · exact ha
+        · exact hpre y hy
+      · rintro ⟨pre, x, post, hl, hpre, hx⟩
+        cases pre with
+        | nil =>
+          simp only [List.nil_append, List.cons.injEq] at hl
+          obtain ⟨rfl, rfl⟩ := hl
+          rw [ha] at hx; cases hx
+        | cons p ps =>
+          simp only [List.cons_append, List.cons.injEq] at hl
+          obtain ⟨rfl, rfl⟩ := hl
+          exact ⟨ps, x, post, rfl, fun y hy => hpre y (by simp [hy]), hx⟩
+    | some b' =>
+      rw [List.filterMap_cons_some ha]
+      simp only [List.head?_cons, Option.some.injEq]
+      constructor
+      · rintro rfl
+        exact ⟨[], a, l, rfl, by simp, ha⟩
+      · rintro ⟨pre, x, post, hl, hpre, hx⟩
+        cases pre with
+        | nil =>
+          simp only [List.nil_append, List.cons.injEq] at hl
+          obtain ⟨rfl, rfl⟩ := hl
+          rw [ha] at hx; cases hx; rfl
+        | cons p ps =>
+          simp only [List.cons_append, List.cons.injEq] at hl
+          obtain ⟨rfl, rfl⟩ := hl
+          have := hpre a (by simp)
+          rw [ha] at this; cases this
+
+/-- all (document, lookup) pairs in processing order: arguments in order, documents in order -/
+def docsInOrder (args : List Arg) : List (Json × String) :=
+  args.flatMap (fun a => a.docs.map (fun d => (d, a.lookup)))
+
+theorem errors_eq_docsInOrder (args : List Arg) :
+    errors args = (docsInOrder args).filterMap (fun x => errOf x.2 x.1) := by
+  induction args with
+  | nil => rfl
+  | cons a as ih =>
+    have he : errors (a :: as) = a.docs.filterMap (errOf a.lookup) ++ errors as := by simp [errors]
+    have hd : docsInOrder (a :: as) = a.docs.map (fun d => (d, a.lookup)) ++ docsInOrder as := by
+      simp [docsInOrder]
+    rw [he, hd, List.filterMap_append, ← ih, List.filterMap_map]
+    rfl
+
+theorem errOf_eq_none_iff (l : String) (d : Json) : errOf l d = none ↔ ∃ xs, iterJsonFile d l = .ok xs := by
+  unfold errOf; cases iterJsonFile d l <;> simp
+
+theorem errOf_eq_some_iff (l : String) (d : Json) (e : PyErr) :
+    errOf l d = some e ↔ iterJsonFile d l = .error e := by
+  unfold errOf; cases iterJsonFile d l <;> simp
+
+theorem itemsOf_of_ok {l : String} {d : Json} {xs : List Json} (h : iterJsonFile d l = .ok xs) :
+    itemsOf l d = xs := by
+  unfold itemsOf; rw [h]
+
+theorem errors_eq_nil_iff (args : List Arg) :
+    errors args = [] ↔ ∀ a ∈ args, ∀ d ∈ a.docs, ∃ xs, iterJsonFile d a.lookup = .ok xs := by
+  simp only [errors, List.flatMap_eq_nil_iff, List.filterMap_eq_nil_iff, errOf_eq_none_iff]
+
+theorem mem_names (args : List Arg) (n : String) :
+    n ∈ names args ↔ ∃ a ∈ args, a.name = n ∧ a.docs ≠ [] := by
+  simp only [names, List.mem_eraseDups, List.mem_map, List.mem_filter, Bool.not_eq_true',
+    List.isEmpty_eq_false_iff]
+  constructor
+  · rintro ⟨a, ⟨ha, hd⟩, rfl⟩; exact ⟨a, ha, rfl, hd⟩
+  · rintro ⟨a, ha, rfl, hd⟩; exact ⟨a, ⟨ha, hd⟩, rfl⟩
+
+theorem find_assembled (args : List Arg) (n : String) :
+    (assembled args).find? (·.1 == n) = if n ∈ names args then some (n, samples args n) else none := by
+  unfold assembled
+  generalize names args = ns
+  induction ns with
+  | nil => simp
+  | cons m ms ih =>
+    rw [List.map_cons, List.find?_cons]
+    by_cases h : m = n
+    · subst h; simp
+    · have hb : (m == n) = false := by simpa using h
+      have : ¬ n = m := fun e => h e.symm
+      simp only [hb, ih, List.mem_cons, this, false_or]
 
 end J2M.Cli
